@@ -110,9 +110,10 @@ Print Assumptions C14_invariant_reachable.
    of src/unix/poll.c this statement was refuted for [strict] = false by the scripts
    [script_shared] and [script_ebadf] of Proofs/IoWatchProofsX.v.) *)
 (* Scope: [EPwait] is the epoll_pwait call that follows the registration loop of a uv__io_poll,
-   whatever its timeout.  The second, non-blocking (timeout 0) epoll_pwait that uv__io_poll makes
-   after a completely full batch of 1024 events is not in the model; that it never blocks with an
-   unflushed watcher_queue is checked on the real library by harness/c14_fullbatch.c. *)
+   whatever its timeout.  The further epoll_pwait calls that one uv__io_poll makes after a completely
+   full batch of 1024 events are the subject of Model/IoPollBatch.v / Properties_C14_batch.v: they are
+   made with an unflushed watcher_queue, and the theorem there is that they never block (timeout 0);
+   harness/c14_fullbatch.c ties that loop to the real library. *)
 Definition C14_in_sync (s : state) : Prop :=
   (forall fd i, reg s fd = Some i ->
      exists o, fdt s fd = Some o /\ ep s fd o = Some (h_pev (hget s i))) /\
